@@ -1,3 +1,4 @@
+import EosModel.Num
 import EosModel.ModInfo
 /-! Line protocol: `build <entry>;<entry>;...` (`build` alone = empty list) ->
     `<status code> <modifier>|<modifier>|...` with modifier = `filter,domain,extra,tgt,op,agg,aggKey,src`
